@@ -409,10 +409,23 @@ def _check_count(ck: Checker, gc: Func, g, destr) -> None:
         ck.fail("C06.count", gc, rets[0] if rets else gc.node, "gc does not return a single accumulated counter")
         return
     cnt = names.pop()
+
+    def lists_of(nd, name: str):
+        """the list(s) a name stands for: a loop variable over a literal tuple of lists stands for each of them"""
+        for hid in nd.loops:
+            h_ = g.nodes[hid]
+            if h_.kind == "for" and isinstance(h_.ast.target, ast.Name) and h_.ast.target.id == name and isinstance(h_.ast.iter, (ast.Tuple, ast.List)) and all(isinstance(e_, ast.Name) for e_ in h_.ast.iter.elts):
+                return {e_.id for e_ in h_.ast.iter.elts}
+        return {name}
+
     augs = [nd for nd in g.nodes.values() if nd.kind == "stmt" and isinstance(nd.ast, ast.AugAssign) and isinstance(nd.ast.target, ast.Name) and nd.ast.target.id == cnt]
     if not augs:
         # alternative idiom: cnt = len(A) + len(B) over exactly the removal lists
-        removed_all = {norm(c.args[0]) for _nd, c, _k in destr if c.args}
+        removed_all = set()
+        appended = {norm(x.func.value) for x in walk_own(gc.node) if isinstance(x, ast.Call) and is_method_call(x, "append", "extend")}
+        for _nd, c, _k in destr:
+            if c.args:
+                removed_all |= {l_ for l_ in lists_of(_nd, norm(c.args[0])) if l_ in appended}
         for d in scope_of(gc).get(cnt):
             if d.kind == "assign":
                 lens = {norm(x.args[0]) for x in walk_expr(d.value) if isinstance(x, ast.Call) and call_name(x) == "len" and x.args}
@@ -423,6 +436,22 @@ def _check_count(ck: Checker, gc: Func, g, destr) -> None:
         return
     for a in augs:
         v = a.ast.value
+        if isinstance(v, ast.Name):
+            # `n = len(paths) | 0 when paths is empty; count += n` (a counting helper inlined): every value the
+            # temporary can hold is len() of the list, or the literal 0 across "the list is empty"
+            from ..an import value_alts as _va
+
+            alts_ = [x for x in _va(g, a, v, depth=3) if not isinstance(x, ast.Name)]
+            lens_ = [x for x in alts_ if isinstance(x, ast.Call) and call_name(x) == "len" and x.args]
+            zeros_ = [x for x in alts_ if isinstance(x, ast.Constant) and x.value == 0]
+            if lens_ and len({norm(x) for x in lens_}) == 1 and len(lens_) + len(zeros_) == len(alts_):
+                lname_ = norm(lens_[0].args[0])
+                zero_ok = True
+                for zd in [nd for nd in g.nodes.values() if nd.kind == "stmt" and isinstance(nd.ast, ast.Assign) and isinstance(nd.ast.value, ast.Constant) and nd.ast.value.value == 0 and a.loops and nd.loops[: len(a.loops)] == a.loops and nd.id != a.id and any(isinstance(t_, ast.Name) and t_.id == v.id for t_ in nd.ast.targets)]:
+                    w_ = cut(g, [zd.id], lambda t, lab: t.kind == "test" and ((norm(t.ast) == lname_ and lab == "F") or (norm(t.ast) == f"not {lname_}" and lab == "T")), start=a.loops[-1])
+                    zero_ok = zero_ok and w_ is None
+                if zero_ok:
+                    v = lens_[0]
         okv = isinstance(a.ast.op, ast.Add) and isinstance(v, ast.Call) and call_name(v) == "len" and v.args
         lst = norm(v.args[0]) if okv else None
         removed = {norm(c.args[0]) for nd, c, _k in destr if c.args and a.loops and nd.loops[: len(a.loops)] == a.loops}
